@@ -137,6 +137,9 @@ pub fn install_quiet_panic_hook() {
             .map(|l| format!("{}:{}", l.file(), l.line()))
             .unwrap_or_else(|| "?".into());
         LAST_PANIC.with(|p| *p.borrow_mut() = Some(format!("{} @ {}", msg, loc)));
+        if std::env::var_os("VERIF_BT").is_some() {
+            eprintln!("panic: {} @ {}\n{}", msg, loc, std::backtrace::Backtrace::force_capture());
+        }
         if GUARD_DEPTH.with(|d| d.get()) == 0 || std::env::var_os("VERIF_PANIC_VERBOSE").is_some() {
             eprintln!("panic: {} @ {}", msg, loc);
         }
